@@ -78,6 +78,8 @@ def sites(F):
                 if rv[0] == "bin" and rv[1] in ARITH and rv[4] in AMOUNT_TYPES:
                     defs = defs or defs_of(fn)
                     pa, pb = provenance(fn, defs, rv[2]), provenance(fn, defs, rv[3])
+                    if rv[4] in ("i32", "u32", "usize") and pa.startswith(("counter", "constset", "const")) and pb.startswith(("const", "constset")):
+                        continue  # a loop counter stepped by a constant (`attempts_left -= 1`), not an amount
                     out.append(Site(fid, bi, "op", "%s:%s" % (rv[1].replace("WithOverflow", "").replace("Unchecked", ""), rv[4]), st[0], "%s , %s" % (pa, pb)))
                 elif rv[0] == "un" and rv[1] == "Neg" and rv[3] in AMOUNT_TYPES:
                     out.append(Site(fid, bi, "op", "Neg:%s" % rv[3], st[0]))
